@@ -39,7 +39,10 @@ def serialize_json(
         *elements, *(definitions or {}).values()
     )
     serialize = partial(
-        _serialize_element, object_refs=True, definitions=definitions
+        _serialize_element,
+        object_refs=True,
+        definitions=definitions,
+        primary=primary,
     )
     primary_schema = serialize(primary)
     if primary_schema is False:
@@ -66,6 +69,7 @@ def _serialize_element(
     element: Element,
     object_refs: bool = False,
     definitions: Dict[str, Any] = None,
+    primary: Element = None,
 ):
     """Convert a schema element to a JSON Schema dictionary.
 
@@ -102,7 +106,10 @@ def _serialize_element(
     if isinstance(element, ObjectMeta):
         schema["title"] = element.__name__
     return _serialize_recursive(
-        schema, object_refs=object_refs, definitions=definitions
+        schema,
+        object_refs=object_refs,
+        definitions=definitions,
+        primary=primary,
     )
 
 
@@ -118,22 +125,34 @@ _TYPE_MAPPING = {
 
 
 def _serialize_recursive(
-    data: Any, object_refs: bool = False, definitions: Dict[str, Element] = None
+    data: Any,
+    object_refs: bool = False,
+    definitions: Dict[str, Element] = None,
+    primary: Element = None,
 ) -> Any:
     """Recursively serialize schema elements."""
     recur = partial(
-        _serialize_recursive, object_refs=object_refs, definitions=definitions
+        _serialize_recursive,
+        object_refs=object_refs,
+        definitions=definitions,
+        primary=primary,
     )
     if isinstance(data, _Property):
         data = data.element
     if isinstance(data, ObjectMeta) and object_refs:
+        if data is primary:
+            # The top-level schema is not a member of the definitions.
+            return {"$ref": "#"}
         return {"$ref": f"#/definitions/{data.__name__}"}
     if isinstance(data, Element):
         return _from_definitions(
             definitions,
             data,
             _serialize_element(
-                data, object_refs=object_refs, definitions=definitions
+                data,
+                object_refs=object_refs,
+                definitions=definitions,
+                primary=primary,
             ),
         )
     if not isinstance(data, (list, dict)):
